@@ -293,6 +293,9 @@ def _eval_bool(cond, syms, val):
 
 
 def _classify_exc(e):
+    if isinstance(e, _CaseTimeout):
+        _TIMEOUTS[0] += 1
+        return ["EXC TimeoutError"]
     if isinstance(e, UnicodeDecodeError):
         return [5]
     if isinstance(e, NotImplementedError):
@@ -321,13 +324,17 @@ def _run_handler_obs(h, sel, segs, vals):
         if m is None:
             out.append([1, int(c)])
         elif isinstance(m, str):
-            out.append([2, int(c)] + list(m.encode("utf-8")))
+            if len(m) > 65536:
+                out.append(["EXC huge-message", int(c), len(m)])   # not expanded (a gigabyte message would exhaust the harness)
+            else:
+                out.append([2, int(c)] + list(m.encode("utf-8")))
         else:
             out.append(["symbolic-msg", int(c)])
     return out
 
 
-CASE_TIMEOUT_S = 60
+CASE_TIMEOUT_S = 20      # a case normally takes milliseconds
+_TIMEOUTS = [0]          # per worker process: after two timeouts the allowance drops to 3 s
 
 
 def _pool_init():
@@ -352,10 +359,11 @@ def _guarded(fn, case, n):
         raise _CaseTimeout()
 
     old = signal.signal(signal.SIGALRM, on_alarm)
-    signal.alarm(CASE_TIMEOUT_S)
+    signal.alarm(CASE_TIMEOUT_S if _TIMEOUTS[0] < 2 else 3)
     try:
         return fn(case)
     except _CaseTimeout:
+        _TIMEOUTS[0] += 1
         return None if n is None else [["EXC TimeoutError"]] * n
     except MemoryError:
         return None if n is None else [["EXC MemoryError"]] * n
@@ -837,7 +845,7 @@ def gen_l2(tier, r, table):
 # ----------------------------------------------------------------- comparison helpers
 
 def is_huge(obs):
-    return isinstance(obs, list) and obs and isinstance(obs[0], str) and obs[0] in ("EXC OverflowError", "EXC MemoryError", "EXC TimeoutError", "EXC _CaseTimeout")
+    return isinstance(obs, list) and obs and isinstance(obs[0], str) and obs[0] in ("EXC OverflowError", "EXC MemoryError", "EXC TimeoutError", "EXC _CaseTimeout", "EXC huge-message")
 
 
 def enc_sig_cd(sig, cd):
